@@ -181,7 +181,7 @@ def run(res, f, tier):
                     def shape(t_):
                         trees = [x.split("::")[-1] for x in TREE.findall(t_)]
                         return "+".join(dict.fromkeys(trees)) if trees else "_"
-                    ins = [shape(f.ty_s(b_["locals"][i]["ty"])) for i in range(1, b_["arg_count"] + 1)]
+                    ins = sorted((shape(f.ty_s(b_["locals"][i]["ty"])) for i in range(1, b_["arg_count"] + 1)), key=lambda x_: (x_ == "_", x_))
                     return "fn(%s) -> %s" % (", ".join(ins), shape(f.ty_s(b_["locals"][0]["ty"])))
                 return pth
             # prefer the operations of the tree types themselves over helper types met on the way
